@@ -13,7 +13,7 @@ PROP = "C19"
 LEAN_MODULE = "Ztr.Props.C19"
 THEOREMS = ["Ztr.Threads.C19_exact", "Ztr.Threads.C19_exact_run", "Ztr.Threads.C19_only_once",
             "Ztr.Threads.C19_reuse_witness"]
-RULE = ("sequences of 3-6 tests, each starting 0-3 threads via threading.Thread or _thread.start_new_thread, named to "
+RULE = ("sequences of 3-6 tests, each starting 0-3 threads via threading.Thread or _thread.start_new_thread (also low-level threads that call threading.current_thread()), named to "
         "match / not match the --ignore-new-thread pattern, each either finished before the test ends or left blocked "
         "until a scripted later test (or the end); the runner's 'left new threads behind' blocks are parsed and "
         "compared with the model fed with the logged (uid, ident) pairs. Non-trivial = at least one leaked and one "
@@ -38,7 +38,7 @@ def gen_script(rng):
                 actions.append(["finish", u])
                 pending.remove((u, at))
         for _ in range(rng.choice([0, 1, 1, 2, 3])):
-            api = rng.choice(["threading", "_thread"])
+            api = rng.choice(["threading", "_thread", "_thread_ct"])
             name = rng.choice(["worker-%d", "ign-%d", "w%d"]) % uid
             actions.append(["start", uid, api, name])
             fate = rng.choice(["finish", "finish", "leak-later", "leak-end"])
